@@ -32,6 +32,17 @@ def c02_probes() -> list[Item]:
         body = H + summ + ["LT", ("PUSHL", "wrap"), "JUMPI", ("PUSH", 1)] + RET + [("LABEL", "wrap"), ("PUSH", 2)] + RET
         out.append(_p(f"hash-plus-const-plus-symbol-wraps-{nm}", body,
                       inputs=[{"cd0": 0, "cd1": 3}, {"cd0": (1 << 256) - 6, "cd1": 3}, {"cd0": (1 << 256) - 6, "cd1": 0}, {"cd0": 1 << 255, "cd1": 1}, {"cd0": (1 << 256) - 1, "cd1": 2}]))
+    # --symbolic-jump: a JUMP to a calldata word continues at every JUMPDEST the word can equal - and halts (invalid jump) for
+    # every other value; the same JUMP reached on two paths with different constraints on the word (second program)
+    j1 = [("PUSH", 0), "CALLDATALOAD", "JUMP", ("LABEL", "a"), ("PUSH", 1)] + RET + [("LABEL", "b"), ("PUSH", 2)] + RET
+    j2 = [("PUSH", 0), "CALLDATALOAD", "DUP1", ("PUSH", 0x20), "GT", ("PUSHL", "lo"), "JUMPI", ("LABEL", "lo"), "JUMP", ("LABEL", "a"), ("PUSH", 1)] + RET + \
+         ["INVALID"] * 30 + [("LABEL", "b"), ("PUSH", 2)] + RET
+    for nm, body in (("symbolic-jump-targets", j1), ("symbolic-jump-two-paths", j2)):
+        code = assemble(body)
+        dests = [i for i, b in enumerate(code) if b == 0x5B]
+        it = _p(nm, body, inputs=[{"cd0": d, "cd1": 0} for d in dests] + [{"cd0": 0, "cd1": 0}, {"cd0": 1, "cd1": 0}, {"cd0": 1 << 255, "cd1": 0}, {"cd0": len(code), "cd1": 0}])
+        it.cli = ("--symbolic-jump",)
+        out.append(it)
     # the two-term form is the documented assumption (hashes lie below 2^256 - 2^64): no input can take the branch
     body = H + H + [("PUSH", 5), "ADD", "LT", ("PUSHL", "wrap"), "JUMPI", ("PUSH", 1)] + RET + [("LABEL", "wrap"), ("PUSH", 2)] + RET
     out.append(_p("hash-plus-const-wraps", body, inputs=[{"cd0": 0, "cd1": 3}, {"cd0": 7, "cd1": 0}]))
